@@ -208,7 +208,7 @@ def family_pure(inv, T):
     from . import C03, C04, C05, C09, C10, C11, C14, C16, C17, C18
     out = []
     seen = set()
-    for name, mod in (('C04', C04), ('C03', C03), ('C05', C05), ('C09', C09), ('C10', C10), ('C11', C11), ('C17', C17), ('C18', C18)):
+    for name, mod in (('C04', C04), ('C03', C03), ('C05', C05), ('C09', C09), ('C10', C10), ('C11', C11), ('C14', C14), ('C17', C17), ('C18', C18)):
         try:
             res = mod.generate(inv, T)
         except Exception as e:
